@@ -128,7 +128,7 @@ def _calls_on_self(x):
         isinstance(x.func.value, ast.Name) and x.func.value.id == 'self'
 
 
-def inline_temps(func, keep=(), names_only=False):
+def inline_temps(func, keep=(), names_only=False, aliases_only=False):
     """see module docstring. `keep`: names never inlined. `names_only`: copy propagation only
     (`x = y` with y a plain name), e.g. the parameter bindings left by sa.inline."""
     f = _dc(func)
@@ -311,6 +311,8 @@ def inline_temps(func, keep=(), names_only=False):
                 raw, wrap = val, idx
         if names_only and (wrap is not None or not isinstance(raw, ast.Name)):
             continue
+        if aliases_only and (wrap is not None or not _is_alias_expr(raw)):
+            continue      # only `x = y` / `x = obj.attr.attr`
         expr = subst_copy(raw)
         if wrap is not None:
             expr = ast.Subscript(value=expr, slice=ast.Constant(wrap), ctx=ast.Load())
@@ -421,7 +423,7 @@ def _drop(st, keep_value):
                     return
 
 
-def unroll_literal_loops(func, max_items=6):
+def unroll_literal_loops(func, max_items=12):
     """Copy of func in which `for x in (A, B, ..): body` over a literal tuple / list of at most
     max_items expressions (no break / continue / else, x a plain name not re-bound in the body) is
     replaced by the bodies with x substituted: a loop over two attributes is the same program as
@@ -438,6 +440,46 @@ def unroll_literal_loops(func, max_items=6):
                 return ast.copy_location(new, n)
             return n
 
+    # names bound exactly once to a literal list / tuple and never updated in place
+    lit = {}
+    nstore = {}
+    for x in ast.walk(f):
+        if isinstance(x, ast.Name) and isinstance(x.ctx, (ast.Store, ast.Del)):
+            nstore[x.id] = nstore.get(x.id, 0) + 1
+    for x in ast.walk(f):
+        if isinstance(x, ast.Assign) and len(x.targets) == 1 and isinstance(
+                x.targets[0], ast.Name) and isinstance(x.value, (ast.List, ast.Tuple)) and \
+                nstore.get(x.targets[0].id) == 1:
+            lit[x.targets[0].id] = x.value
+    for x in ast.walk(f):
+        if isinstance(x, ast.Attribute) and isinstance(x.value, ast.Name) and \
+                x.value.id in lit and x.attr in ('append', 'extend', 'insert', 'pop', 'remove',
+                                                  'sort', 'reverse', 'clear'):
+            lit.pop(x.value.id, None)
+        if isinstance(x, ast.Subscript) and isinstance(x.ctx, (ast.Store, ast.Del)) and \
+                isinstance(x.value, ast.Name):
+            lit.pop(x.value.id, None)
+
+    def items_of(st):
+        """[(target name -> expr)] per iteration, or None"""
+        it = st.iter
+        if isinstance(it, ast.Name) and it.id in lit:
+            it = lit[it.id]
+        if not isinstance(it, (ast.Tuple, ast.List)) or not (0 < len(it.elts) <= max_items):
+            return None
+        if isinstance(st.target, ast.Name):
+            return [{st.target.id: e} for e in it.elts]
+        if isinstance(st.target, (ast.Tuple, ast.List)) and all(
+                isinstance(t, ast.Name) for t in st.target.elts):
+            out = []
+            for e in it.elts:
+                if not isinstance(e, (ast.Tuple, ast.List)) or len(e.elts) != len(
+                        st.target.elts):
+                    return None
+                out.append({t.id: v for t, v in zip(st.target.elts, e.elts)})
+            return out
+        return None
+
     def rewrite(stmts):
         out = []
         for st in stmts:
@@ -448,16 +490,18 @@ def unroll_literal_loops(func, max_items=6):
             if isinstance(st, ast.Try):
                 for h in st.handlers:
                     h.body = rewrite(h.body)
-            if isinstance(st, ast.For) and isinstance(st.target, ast.Name) and isinstance(
-                    st.iter, (ast.Tuple, ast.List)) and 0 < len(st.iter.elts) <= max_items and \
-                    not st.orelse and not any(isinstance(x, (ast.Break, ast.Continue))
-                                              for b in st.body for x in ast.walk(b)) and \
-                    not any(isinstance(x, ast.Name) and x.id == st.target.id and
-                            isinstance(x.ctx, (ast.Store, ast.Del))
-                            for b in st.body for x in ast.walk(b)):
-                for e in st.iter.elts:
+            its = items_of(st) if isinstance(st, ast.For) else None
+            if its is not None and not st.orelse and not any(
+                    isinstance(x, (ast.Break, ast.Continue))
+                    for b in st.body for x in ast.walk(b)) and not any(
+                        isinstance(x, ast.Name) and x.id in its[0] and
+                        isinstance(x.ctx, (ast.Store, ast.Del))
+                        for b in st.body for x in ast.walk(b)):
+                for binding in its:
                     for b in st.body:
-                        nb = Sub(st.target.id, e).visit(_dc(b))
+                        nb = _dc(b)
+                        for nm, e in binding.items():
+                            nb = Sub(nm, e).visit(nb)
                         for x in ast.walk(nb):
                             if hasattr(x, 'lineno'):
                                 x.lineno = st.lineno
